@@ -928,3 +928,22 @@ Proof.
   intros G P. destruct (prefix_of_inv pt x G) as [r E]. unfold PInv in P. rewrite E in P.
   rewrite <- app_assoc in P. eexists. symmetry. exact P.
 Qed.
+
+(* ------------------------------------------------------------------ *)
+(* statements over the executable machine (ghosts erased) *)
+Lemma reachable_inv pt progs s : wf pt progs -> reachable M (init progs) s -> exists x, GInv pt x /\ base x = s.
+Proof.
+  intros W R. destruct (reachable_ireach progs s R) as [x [Rx E]].
+  exists x. split; [apply (ireach_inv pt progs); auto|exact E].
+Qed.
+
+Lemma ownership_reachable pt progs s t n : wf pt progs -> reachable M (init progs) s -> holds (thr s t) n ->
+  n <> 0 /\
+  (forall k, Nat.iter k (nxt s) (head s) <> n) /\
+  tail s <> n /\
+  (forall u, pc (thr s u) = PLink -> prev (thr s u) <> n /\ node (thr s u) <> n) /\
+  (forall u, u <> t -> ~ In n (own_list (thr s u))).
+Proof.
+  intros W R H. destruct (reachable_inv pt progs s W R) as [x [G E]]. subst s.
+  apply (ownership_of_inv pt x t n G H).
+Qed.
